@@ -420,3 +420,12 @@ package netty
 //@   ensures nil_stays_nil: implies(ex == nil, result == nil)
 //@   ensures errors_unchanged: implies(ex != nil && impl(ex, error), result == ex)
 //@   ensures non_nil: implies(ex != nil, result != nil)
+
+// forwarding through a context (called by codecs): the next handlers are arbitrary code
+//@ property C04 C08 C16
+//@ assume iface InboundContext.HandleRead
+//@   may_panic true
+//@   modifies all
+//@ assume iface OutboundContext.HandleWrite
+//@   may_panic true
+//@   modifies all
